@@ -9,7 +9,7 @@ LEVEL = "model_checking"
 def check(run):
     import mc
     mc.client_mc(run, "C09")
-    scripts = F.outgoing(run.seed, run.tier)
+    scripts = B.multi(F.outgoing, run.seed, run.tier, 4)
     known = {k["key"]: k["text"] for k in lib.known_findings("C09")}
     nacc, rejected, events, final = B.check_family(run, "C09", scripts, "c09", kind="client", known=known)
     run.add(distinct_nontrivial=len({lib.digest([s["steps"], s["config"]]) for s in scripts}),
